@@ -32,7 +32,9 @@ TECHNIQUE = (
     "differ in PYTHONHASHSEED, import order, construction path, global-random history, wall-clock offset and in whether another "
     "virtual ECU with a different seed was constructed, set up and exercised in the same interpreter before; the dumped "
     "model and the handle_request transcript over a generated, state-carrying request history are compared byte by byte "
-    "(security seeds masked); the session graph is walked with real DiagnosticSessionControl requests"
+    "(security seeds masked); the masked seeds themselves are compared for freshness: seeds answered to the same request in two "
+    "processes and to successive requestSeed requests of one history must not repeat; the session graph is walked with real "
+    "DiagnosticSessionControl requests"
 )
 LEVEL_TEXT = (
     "Exploration: 16 (quick) / 304 (thorough) configurations (+ 2 boundary-seed and 3 focus configurations in both tiers) = seed x randomness parameters (probabilities 0, 0.05, 0.5, 1; "
@@ -41,7 +43,9 @@ LEVEL_TEXT = (
     "always taken through the CLI/config constructor path in three further processes, over histories of 30..300 requests built from the observed model (session changes, resets, "
     "security access with correct/wrong keys, reads/writes/routines, every-service sweeps, reference-generated valid "
     "requests, random bytes; in the focus configurations - ReadDTCInformation, SecurityAccess and the identifier services mandatory and "
-    "answering positively - additionally requestSeed directly followed by a request answered from stateful_rng, and 19 02 <mask> in every session).  Held means: no difference was observed on these configurations, histories and environments."
+    "answering positively - additionally requestSeed directly followed by a request answered from stateful_rng, and 19 02 <mask> in every session).  "
+    "Every history with SecurityAccess in the model yields pairs of handed-out seeds (same request in two processes; successive requestSeed "
+    "requests in one process) that are checked for freshness.  Held means: no difference (and no repeated security seed) was observed on these configurations, histories and environments."
 )
 LEVEL_NOTE = (
     "Trusted: the comparison/masking logic and the BFS in vf/checks/c16.py; the request generators in vf/gen_uds.py. "
@@ -57,13 +61,19 @@ RULE = (
     "replies; distinct = distinct (configuration, history, environment); three fixed focus configurations (and a quarter of the random "
     "draws) make 10/3E/27/19/22/2E/31 mandatory with p_sub_function >= 0.2, p_identifier and p_correct_payload_format >= 0.5; two of the "
     "environments of every configuration first run the whole history (plus the history's stateful requests in up to 12 of its own sessions) "
-    "against another RandomUDSServer with a different seed in the same interpreter"
+    "against another RandomUDSServer with a different seed in the same interpreter; freshness of security seeds: per configuration, "
+    "pairs of seeds of >= 2 bytes each (same history index in two processes / successive seeds of one process) - at least 8 pairs of "
+    "one kind that are ALL equal, or any equal pair of seeds of >= 8 bytes, is a verdict"
 )
 ASSUMPTIONS = [
     "security-access seeds (positive replies 67 <odd> ...) are exempt including their length (an empty seed occurs in about 6% of the "
     "requests); the reply to a sendKey-shaped request (27 <even> ...) is compared only when both processes agree on the pending-seed "
     "situation it meets (no pending seed / key equals seed / key differs; for harness-computed keys also whether the key is empty), "
     "because that situation is a function of the fresh seeds; no other reply depends on it",
+    "'deliberately fresh' is read as: a seed is newly drawn for every requestSeed answer, so it is neither a function of (ECU seed, arguments, "
+    "history) nor a repetition of the seed handed out before.  Only seeds of >= 2 bytes are paired (empty and one-byte seeds repeat by chance); "
+    "a verdict needs >= 8 pairs of one kind in one configuration that are all equal (chance <= 2^-128 for uniformly drawn bytes, <= 2^-64 if only one "
+    "byte per seed were random) or one equal pair of seeds of >= 8 bytes (<= 2^-64 per pair); no particular length, distribution or entropy source is demanded",
     "sessions are taken from 1..0x7E (RandomUDSServer.randomize indexes a 0x7F-element table; session 0x7F makes setup() raise IndexError and is not part of the workload)",
     "'at different times' is exercised as constant offsets of time.time/time.monotonic (+1e9 s, -1.7e9 s, +3e9 s) installed before gallia is imported; "
     "gaps between requests stay far below the 10 s inactivity reset (children with a gap > 4 s are discarded as harness noise)",
@@ -482,6 +492,14 @@ def required_reach(tier: str) -> dict[str, int]:
         "other-ecu.dtc-read-in-session-where-other-ecu-read-dtc": 30 if q else 300,
         "history.dtc-read-answered": 20 if q else 200,
         "security.key-accepted": 1 if q else 20,
+        # freshness of the exempt seeds: pairs of seeds (>= 2 bytes each) answered to the same request in two processes / to
+        # successive requestSeed requests of one history; configurations with enough pairs for the all-equal verdict
+        "security.fresh.seed-pairs-compared.across-processes": 200 if q else 3000,
+        "security.fresh.seed-pairs-compared.within-one-history": 150 if q else 2000,
+        "security.fresh.long-seed-pairs-compared.across-processes": 30 if q else 400,
+        "security.fresh.long-seed-pairs-compared.within-one-history": 30 if q else 400,
+        "security.fresh.configs-judged.across-processes": 4 if q else 40,
+        "security.fresh.configs-judged.within-one-history": 4 if q else 40,
         "models.differ-for-different-seeds": 1,
         "walk.sessions-reached": 20 if q else 500,
         "walk.returned-to-default": 20 if q else 500,
@@ -914,6 +932,78 @@ def sid_of(history: list[str], idx: int) -> str:
     return item[:2]
 
 
+# ---- freshness of security-access seeds ("..., which are deliberately fresh") ------------------------------------------------
+# A pair = two handed-out seeds of at least FRESH_MIN_BYTES bytes each, either answered to the same request of the same history
+# in two processes ("across-processes") or answered to two successive requestSeed requests of one history in one process
+# ("within-one-history").  A fresh seed is newly drawn every time, so an equal pair is a coincidence: for seeds of >= 2 bytes
+# at most 2^-16 if the bytes are drawn uniformly (2^-8 if only one byte of a seed carried any entropy).
+#   not-fresh/all-equal: a configuration that shows at least FRESH_MIN_PAIRS pairs of one kind, ALL of them equal
+#                        (false alarm <= 2^-128 per configuration and kind, <= 2^-64 under the one-byte assumption);
+#   not-fresh/repeated:  any equal pair of seeds of at least FRESH_LONG_BYTES bytes (<= 2^-64 per pair; a thorough run sees
+#                        about 10^5 pairs).
+FRESH_MIN_BYTES = 2
+FRESH_MIN_PAIRS = 8
+FRESH_LONG_BYTES = 8
+FRESH_KINDS = ("across-processes", "within-one-history")
+
+
+def seed_answers(res: dict[str, Any]) -> list[tuple[int, str]]:
+    """(index of the request in the history, seed as hex) for every requestSeed answer of one process."""
+    pos = [i for i, x in enumerate(res.get("transcript") or []) if x[0].startswith("67") and x[0].endswith("**")]
+    seeds = list(res.get("seeds") or [])
+    if len(pos) != len(seeds):
+        raise HarnessProblem(f"child reported {len(seeds)} security seeds but masked {len(pos)} replies")
+    return list(zip(pos, seeds))
+
+
+def freshness(procs: list[dict[str, Any]]) -> dict[str, dict[str, Any]]:
+    """Pairs of security seeds (see above) over the processes that ran one history for one configuration."""
+    out: dict[str, dict[str, Any]] = {k: {"pairs": 0, "equal": 0, "long_pairs": 0, "long_equal": 0, "examples": [], "procs": None} for k in FRESH_KINDS}
+    answers = [seed_answers(r) for r in procs]
+
+    def add(kind: str, where: Any, sa: str, sb: str, procs_: tuple[int, int]) -> None:
+        if min(len(sa), len(sb)) < 2 * FRESH_MIN_BYTES:
+            return
+        o = out[kind]
+        o["pairs"] += 1
+        long = min(len(sa), len(sb)) >= 2 * FRESH_LONG_BYTES
+        o["long_pairs"] += long
+        if sa == sb:
+            o["equal"] += 1
+            o["long_equal"] += long
+            if o["procs"] is None or (long and not o.get("procs_long")):
+                o["procs"] = list(procs_)
+                o["procs_long"] = bool(long)
+            if len(o["examples"]) < 4 or (long and len(o["examples"]) < 6):
+                o["examples"].append({"requests": where, "processes": list(procs_), "seed": sa})
+
+    for a in range(len(answers)):
+        da = dict(answers[a])
+        for j in range(len(answers[a]) - 1):
+            (i1, s1), (i2, s2) = answers[a][j], answers[a][j + 1]
+            add("within-one-history", [i1, i2], s1, s2, (a, a))
+        for b in range(a + 1, len(answers)):
+            for i, sb in answers[b]:
+                if i in da:
+                    add("across-processes", [i], da[i], sb, (a, b))
+    return out
+
+
+def judge_freshness(fr: dict[str, dict[str, Any]], min_pairs: int = FRESH_MIN_PAIRS) -> list[tuple[str, str, str, dict[str, Any]]]:
+    """(kind, key, what, detail) for every freshness verdict the pairs support."""
+    found = []
+    for kind in FRESH_KINDS:
+        o = fr[kind]
+        detail = {k: o[k] for k in ("pairs", "equal", "long_pairs", "long_equal", "examples")}
+        if o["pairs"] >= min_pairs and o["equal"] == o["pairs"]:
+            found.append((kind, f"security-seed/not-fresh/all-equal/{kind}",
+                          f"all {o['pairs']} pairs of security-access seeds (>= {FRESH_MIN_BYTES} bytes each) compared {kind.replace('-', ' ')} are equal: the seeds are not fresh", detail))
+        elif o["long_equal"]:
+            found.append((kind, f"security-seed/not-fresh/repeated/{kind}",
+                          f"{o['long_equal']} of {o['long_pairs']} pairs of security-access seeds of >= {FRESH_LONG_BYTES} bytes compared {kind.replace('-', ' ')} are equal: a handed-out seed was handed out again", detail))
+    return found
+
+
 def run_config(rn: Runner, tier: str, vseed: int, cfg: dict[str, Any], deadline_left: Any) -> dict[str, Any]:
     """Everything for one configuration; runs in a worker thread, returns plain data (no ctx access here)."""
     rep: dict[str, Any] = {"cfg": cfg, "violations": [], "reach": {}, "cases": [], "timeouts": [], "notes": [], "sample": None, "model": None}
@@ -1015,6 +1105,20 @@ def run_config(rn: Runner, tier: str, vseed: int, cfg: dict[str, Any], deadline_
     seeds_seen = [tuple(r.get("seeds", [])) for r in results if r]
     if len(set(seeds_seen)) > 1:
         bump("security.seeds-fresh-across-processes")
+    # ---- the exempt part is exempt because it is fresh: seeds must not repeat (see FRESH_* above)
+    okp = [k for k, r in enumerate(results) if r and "transcript" in r]
+    fr = freshness([results[k] for k in okp])  # type: ignore[misc]
+    for kind in FRESH_KINDS:
+        o = fr[kind]
+        bump(f"security.fresh.seed-pairs-compared.{kind}", o["pairs"])
+        bump(f"security.fresh.seed-pairs-differ.{kind}", o["pairs"] - o["equal"])
+        bump(f"security.fresh.long-seed-pairs-compared.{kind}", o["long_pairs"])
+        if o["pairs"] >= FRESH_MIN_PAIRS:
+            bump(f"security.fresh.configs-judged.{kind}")
+    for kind, key, what, detail in judge_freshness(fr):
+        pa, pb = (okp[x] for x in (fr[kind]["procs"] or [0, min(1, len(okp) - 1)]))
+        viol(key, what, {**base_w, "kind": "seed-freshness", "mode": kind, "env_a": envs[pa], "env_b": envs[pb], "history": history, "detail": detail,
+                         "processes": len(okp), "env_brief_a": env_brief(envs[pa]), "env_brief_b": env_brief(envs[pb])})
     seed0_cli = 0
     for k, rk in enumerate(results):
         if rk is None:
@@ -1240,6 +1344,26 @@ def replay(ctx: Any, witness: dict[str, Any]) -> None:
         return
     ea, eb = witness["env_a"], witness["env_b"]
     hist = witness.get("history") or []
+    if witness.get("kind") == "seed-freshness":
+        # the two environments of the witness, the second one repeated until the pairs suffice for the same verdict
+        mode = witness.get("mode")
+        procs: list[dict[str, Any]] = []
+        verdicts: list[tuple[str, str, str, dict[str, Any]]] = []
+        for k, env in enumerate([ea, eb, eb, eb, eb, eb]):
+            r = rn.child(cfg, env, hist, False, f"f{k}")
+            if r.get("timeout"):
+                raise RuntimeError("replay child timed out")
+            if "transcript" not in r:
+                raise RuntimeError("replay child did not get as far as the history")
+            procs.append(r)
+            fr = freshness(procs)
+            verdicts = [x for x in judge_freshness(fr) if x[0] == mode]
+            if len(procs) >= 2 and (verdicts or fr[mode]["pairs"] >= FRESH_MIN_PAIRS):
+                break
+        ctx.case(("replay", key))
+        for kind, k2, what, detail in verdicts:
+            ctx.violation(k2, what + " (again)", {**witness, "key": k2, "detail_now": detail})
+        return
     ra = rn.child(cfg, ea, hist, False, "a")
     rb = rn.child(cfg, eb, hist, False, "b")
     if ra.get("timeout") or rb.get("timeout"):
